@@ -64,6 +64,8 @@ impl<'a> Bytes<'a> {
 
     #[inline]
     pub fn peek_n<'b: 'a, U: TryFrom<&'a [u8]>>(&'b self, n: usize) -> Option<U> {
+        #[cfg(httparse_verif)]
+        _verif_counters::PEEKS.fetch_add(1, core::sync::atomic::Ordering::Relaxed);
         // TODO: once we bump MSRV, use const generics to allow only [u8; N] reads
         // TODO: drop `n` arg in favour of const
         // let n = core::mem::size_of::<U>();
@@ -87,6 +89,8 @@ impl<'a> Bytes<'a> {
     /// Caller must ensure that Bytes hasn't been advanced/bumped by more than [`Bytes::len()`].
     #[inline]
     pub unsafe fn advance(&mut self, n: usize) {
+        #[cfg(httparse_verif)]
+        _verif_counters::TRAVEL.fetch_add(n, core::sync::atomic::Ordering::Relaxed);
         self.cursor = self.cursor.add(n);
         debug_assert!(self.cursor <= self.end, "overflow");
     }
@@ -166,6 +170,8 @@ impl<'a> Bytes<'a> {
 impl AsRef<[u8]> for Bytes<'_> {
     #[inline]
     fn as_ref(&self) -> &[u8] {
+        #[cfg(httparse_verif)]
+        _verif_counters::AS_REFS.fetch_add(1, core::sync::atomic::Ordering::Relaxed);
         // SAFETY: not moving position at all, so it's safe
         unsafe { slice_from_ptr_range(self.cursor, self.end) }
     }
@@ -195,5 +201,35 @@ impl Iterator for Bytes<'_> {
         } else {
             None
         }
+    }
+}
+
+// Verification hook (compiled only with `--cfg httparse_verif`): work counters.
+#[cfg(httparse_verif)]
+#[doc(hidden)]
+#[allow(missing_docs)]
+pub mod _verif_counters {
+    use core::sync::atomic::{AtomicUsize, Ordering};
+    /// sum of all `advance(n)` amounts (includes `next`/`bump`)
+    pub static TRAVEL: AtomicUsize = AtomicUsize::new(0);
+    /// number of `peek_n` block peeks
+    pub static PEEKS: AtomicUsize = AtomicUsize::new(0);
+    /// number of `as_ref` calls (SIMD loops look at the remaining slice through it)
+    pub static AS_REFS: AtomicUsize = AtomicUsize::new(0);
+    /// bytes removed by the backward trim of header values
+    pub static TRIMMED: AtomicUsize = AtomicUsize::new(0);
+    pub fn reset() {
+        TRAVEL.store(0, Ordering::Relaxed);
+        PEEKS.store(0, Ordering::Relaxed);
+        AS_REFS.store(0, Ordering::Relaxed);
+        TRIMMED.store(0, Ordering::Relaxed);
+    }
+    pub fn read() -> (usize, usize, usize, usize) {
+        (
+            TRAVEL.load(Ordering::Relaxed),
+            PEEKS.load(Ordering::Relaxed),
+            AS_REFS.load(Ordering::Relaxed),
+            TRIMMED.load(Ordering::Relaxed),
+        )
     }
 }
